@@ -42,17 +42,22 @@ pub(crate) fn range_with_prefix<'a>(
         None => namespace.to_vec(),
     };
     let end = match end {
-        Some(e) => concat(namespace, e),
+        Some(e) => Some(concat(namespace, e)),
+        // there is no upper bound when the namespace is empty or consists of 0xFF bytes only
+        None if namespace.iter().all(|b| *b == 255) => None,
         // end is updating last byte by one
-        None => namespace_upper_bound(namespace),
+        None => Some(namespace_upper_bound(namespace)),
     };
 
     // get iterator from storage
-    let base_iterator = storage.range(Some(&start), Some(&end), order);
+    let base_iterator = storage.range(Some(&start), end.as_deref(), order);
 
     // make a copy for the closure to handle lifetimes safely
     let prefix = namespace.to_vec();
-    let mapped = base_iterator.map(move |(k, v)| (trim(&prefix, &k), v));
+    // the upper bound keeps the length of the namespace, so shorter keys of other
+    // namespaces may fall below it, skip everything that is not prefixed with this namespace
+    let mapped = base_iterator
+        .filter_map(move |(k, v)| k.starts_with(&prefix).then(|| (trim(&prefix, &k), v)));
     Box::new(mapped)
 }
 
